@@ -49,6 +49,14 @@ def sub(tier, cfg, out):
     cases = corpora.all_cases('quick' if tier == 'quick' else 'thorough')
     if tier == 'quick':
         cases = thin(cases, cap=60, cheap_cap=500)
+    # failing exits are code too: the authentication-failure cases of C09 (corrupted / mismatched tokens, tags, headers -- admissible inputs
+    # whose documented result is an error), one in `step` of every (function, altered field) class, on the same exact-size buffers
+    import C09
+    seen = {}
+    for f, c, plain, field, bit in C09.auth_cases('quick'):
+        k = (f, field); seen[k] = seen.get(k, 0) + 1
+        if (seen[k] - 1) % (9 if tier == 'quick' else 2) == 0:
+            cases.append((f, c))
     res = vf.pmap(check_case, cases, case_timeout=300)
     viol = []
     fns = {}
@@ -146,16 +154,10 @@ def thin(cases, cap=60, cheap_cap=None):
 def run(tier):
     chk = vf.Check(PROP, tier, deadline_s=1200 if tier == 'quick' else 7200)
     for cfg in CFGS:
-        fd, out = tempfile.mkstemp(prefix='c07', dir=os.path.join(vf.VERIF, 'build')); os.close(fd)
-        r = subprocess.run([sys.executable, os.path.join(vf.VERIF, 'vcheck'), PROP, '--tier', tier, '--sub', cfg, '--out', out],
-                           stdout=subprocess.PIPE, stderr=subprocess.STDOUT, text=True)
-        try:
-            d = json.load(open(out))
-        except Exception:
-            chk.violation('harness:' + cfg, {'cfg': cfg, 'kind': 'none'}, 'sub-exploration %s failed: %s' % (cfg, r.stdout[-800:]))
+        d, err = vf.run_sub(PROP, tier, cfg, prefix='c07')
+        if d is None:
+            chk.harness_error('sub-exploration %s failed: %s' % (cfg, err))
             continue
-        finally:
-            os.unlink(out)
         for v in d['viol']:
             chk.violation(v['key'], {'cfg': cfg, 'kind': 'case', 'fn': v['fn'], 'case': v['case']}, v['msg'])
         chk.part('replay_' + cfg, states=len(d['fns']), transitions=2 * d['n'], traces_validated_against_impl=2 * d['n'], evaluations=2 * d['n'],
